@@ -31,6 +31,7 @@ def handle (j : Json) : Except String Json := do
   | "nest_dyn" => Driver.nestDyn j
   | "nest_statdyn" => Driver.nestStatDyn j
   | "nest_chain" => Driver.nestChain j
+  | "nest_flat" => Driver.nestFlat j
   | "legality" => Driver.legality j
   | "parse_spec" => Driver.parseSpec j
   | "prec" => Driver.prec j
